@@ -1,6 +1,6 @@
 #!/bin/sh
-# Re-run the current checks (quick tier) against every seeded change already confirmed with the suite (rounds 1-3 and the re-introduced
-# defects); the earlier suite confirmation is kept in meta.json (--no-suite). Needs the seed sources under /tmp/seedout{,2,3}.
+# Re-run the current checks (quick tier) against every seeded change already confirmed with the suite (rounds 1-7 and the re-introduced
+# defects); the earlier suite confirmation is kept in meta.json (--no-suite). Needs the seed sources under /tmp/seedout{,2,...,7}.
 OUT=${RECHECK_LOG:-/tmp/w/recheck.log}; : > $OUT
 for id in ${RECHECK_IDS:-C01 C02 C03 C04 C05 C06 C07 C08 C09 C10 C11 C12 C13 C14 C15 C16 C17 C18 C19 C20}; do
   e1=""; e2=""; e3=""
@@ -8,7 +8,7 @@ for id in ${RECHECK_IDS:-C01 C02 C03 C04 C05 C06 C07 C08 C09 C10 C11 C12 C13 C14
   python3 /verif/tools/seedcheck.py $id /tmp/seedout/$id --no-suite --checks $id$e1 >> $OUT 2>&1
   python3 /verif/tools/seedcheck.py $id /tmp/seedout2/$id --no-suite --suffix 2 --checks $id$e2 >> $OUT 2>&1
   python3 /verif/tools/seedcheck.py $id /tmp/seedout3/$id --no-suite --suffix 3 --checks $id$e3 >> $OUT 2>&1
-  for r in 4 5 6; do
+  for r in 4 5 6 7; do
     python3 /verif/tools/seedcheck.py $id /tmp/seedout$r/$id --no-suite --suffix $r --checks $(cat /tmp/seedout$r/$id/.checks 2>/dev/null || echo $id) >> $OUT 2>&1
   done
 done
